@@ -1,5 +1,7 @@
 from __future__ import annotations
 
+from base64 import b64decode
+from binascii import Error as BinasciiError
 from enum import auto, Enum
 from io import BytesIO, StringIO
 from time import time
@@ -60,6 +62,14 @@ class FrameTooLargeError(Exception):
     pass
 
 
+def _is_key(value: bytes) -> bool:
+    # The base64 of a nonce of 16 bytes (RFC 6455 section 4.1)
+    try:
+        return len(b64decode(value, validate=True)) == 16
+    except (BinasciiError, ValueError):
+        return False
+
+
 class Handshake:
     def __init__(self, headers: List[Tuple[bytes, bytes]], http_version: str) -> None:
         self.accepted = False
@@ -98,7 +108,7 @@ class Handshake:
         elif self.http_version < "1.1":
             return False
         elif self.http_version == "1.1":
-            if self.key is None:
+            if self.key is None or not _is_key(self.key):
                 return False
             if self.connection_tokens is None or not any(
                 token.lower() == "upgrade" for token in self.connection_tokens
